@@ -49,18 +49,64 @@ var vc10Progress atomic.Int64
 
 type vc10CountingDAG struct{ ipld.DAGService }
 
+// Transient faults (stratum "fault"): armed with k >= 0, the (k+1)-th next
+// Get/GetMany call, resp. Add of the extended root (file size == armed value), fails once with
+// vc10ErrInjected; afterwards the service is healthy again.
+var (
+	vc10FaultGet    atomic.Int64 // < 0: disarmed
+	vc10FaultAdd    atomic.Int64
+	vc10FaultsFired atomic.Int64
+	vc10ErrInjected = errors.New("verif-injected DAG service failure")
+)
+
+func init() { vc10FaultGet.Store(-1); vc10FaultAdd.Store(-1) }
+
+func vc10FaultNow(c *atomic.Int64) bool {
+	if c.Load() < 0 {
+		return false
+	}
+	if c.Add(-1) == -1 {
+		vc10FaultsFired.Add(1)
+		return true
+	}
+	return false
+}
+
+func vc10Injected(err error) bool {
+	return err != nil && strings.Contains(err.Error(), vc10ErrInjected.Error())
+}
+
 func (c vc10CountingDAG) Get(ctx context.Context, k cid.Cid) (ipld.Node, error) {
 	vc10Progress.Add(1)
+	if vc10FaultNow(&vc10FaultGet) {
+		return nil, vc10ErrInjected
+	}
 	return c.DAGService.Get(ctx, k)
 }
 
 func (c vc10CountingDAG) GetMany(ctx context.Context, ks []cid.Cid) <-chan *ipld.NodeOption {
 	vc10Progress.Add(1)
+	if vc10FaultNow(&vc10FaultGet) {
+		out := make(chan *ipld.NodeOption, 1)
+		out <- &ipld.NodeOption{Err: vc10ErrInjected}
+		close(out)
+		return out
+	}
 	return c.DAGService.GetMany(ctx, ks)
 }
 
 func (c vc10CountingDAG) Add(ctx context.Context, nd ipld.Node) error {
 	vc10Progress.Add(1)
+	// only the Add of the new root of an extension (file size == armed target):
+	// a failed Add of an inner node of trickle.Append leaves the in-memory root
+	// pointing to a block that was never stored (kept out, see report)
+	if t := vc10FaultAdd.Load(); t >= 0 && len(nd.Links()) > 0 {
+		if sz, err := fileSize(nd); err == nil && int64(sz) == t {
+			vc10FaultAdd.Store(-1)
+			vc10FaultsFired.Add(1)
+			return vc10ErrInjected
+		}
+	}
 	return c.DAGService.Add(ctx, nd)
 }
 
@@ -83,6 +129,7 @@ type vc10Gen struct {
 	seekEnd      bool   // Seek(off != 0, SeekEnd)
 	seekNeg      int    // Seek to a negative target with chance 1/seekNeg (0 = never)
 	writeAfterRd bool   // Write directly after a Read that advanced the offset (no Seek between)
+	faults       bool   // transient DAG-service faults around reads and extending Seek/Truncate
 	staleReader  bool   // Truncate / extending Seek while a reader obtained by an earlier Read is alive, then Read
 }
 
@@ -101,6 +148,13 @@ var vc10Strata = []vc10Gen{
 	{name: "writeat-runstart", init: "native", writeAt: 4},
 	{name: "init-inline", init: "inline", writeAt: 3, seekEnd: true, staleReader: true},
 	{name: "stale-reader", init: "native", writeAt: 1, staleReader: true},
+	// transient faults: a Get/GetMany failure during Read/CtxReadFull, an Add
+	// failure (nodes with links) during an extending Seek/Truncate; the pending
+	// buffer is flushed by an explicit Sync first so that only the read resp. the
+	// extension sees the fault. A call that reports the fault must leave content
+	// and position as before (a read may have delivered a correct prefix); once
+	// healed everything must match the model again.
+	{name: "fault", init: "native", writeAt: 3, seekEnd: true, staleReader: true, faults: true},
 	// strata containing the trigger of a recorded finding
 	{name: "read-write", init: "native", writeAt: 3, seekEnd: true, staleReader: true, writeAfterRd: true},
 	{name: "init-foreign", init: "foreign", writeAt: 3, seekEnd: true, staleReader: true},
@@ -109,8 +163,8 @@ var vc10Strata = []vc10Gen{
 
 func vc10Run(c *vlib.Ctx) {
 	c.Rule("histories of 4-24 ops {Write, WriteAt, Seek(3 whences), Read, CtxReadFull, Truncate, Size, Sync, GetNode+read-back} over initial files 0..4 KiB built by trickle/balanced importers, a bare raw node, a single dag-pb leaf or an empty node; CID v0/v1(sha2-256, blake2b-256)/identity; modifier MaxLinks 2..8, size-16..512 chunker, writebufferSize 0..64 or default; stratum clean mixes everything except a Write directly after a Read, focus strata concentrate on one pattern, read-write/init-foreign/identity-kept contain the trigger of a recorded finding; every node returned by GetNode is kept and re-verified (CID and bytes) after every later operation; distinct = FNV of config + op list; non-trivial = history has a WriteAt at an offset != current, a Seek with whence != SeekStart, a flush into a DAG of depth >= 2 and ended with a successful read-back comparison")
-	nq := map[string]int{"clean": 3600, "writeat-seek": 800, "seekend": 300, "seekneg": 300, "writeat-offset": 400, "writeat-runstart": 400, "init-inline": 500, "stale-reader": 400, "read-write": 300, "init-foreign": 300, "identity-kept": 200}
-	nt := map[string]int{"clean": 50000, "writeat-seek": 10000, "seekend": 3000, "seekneg": 3000, "writeat-offset": 5000, "writeat-runstart": 5000, "init-inline": 6000, "stale-reader": 5000, "read-write": 4000, "init-foreign": 5000, "identity-kept": 3000}
+	nq := map[string]int{"clean": 3600, "writeat-seek": 800, "seekend": 300, "seekneg": 300, "writeat-offset": 400, "writeat-runstart": 400, "init-inline": 500, "stale-reader": 400, "read-write": 300, "init-foreign": 300, "identity-kept": 200, "fault": 1200}
+	nt := map[string]int{"clean": 50000, "writeat-seek": 10000, "seekend": 3000, "seekneg": 3000, "writeat-offset": 5000, "writeat-runstart": 5000, "init-inline": 6000, "stale-reader": 5000, "read-write": 4000, "init-foreign": 5000, "identity-kept": 3000, "fault": 8000}
 	for _, g := range vc10Strata {
 		g := g
 		c.Cases(g.name, c.N(nq[g.name], nt[g.name]), func(k *vlib.Case) { vc10History(k, g) })
@@ -167,8 +221,9 @@ type vc10World struct {
 	runStart    int64
 	fired       map[string]bool
 
-	held   []vc10Held // every node returned by GetNode, with its CID and bytes at that time
-	lastOp string
+	faulted bool       // the operation in progress runs with an armed transient fault
+	held    []vc10Held // every node returned by GetNode, with its CID and bytes at that time
+	lastOp  string
 
 	sawWriteAtNonCur, sawSeekWhence, sawDeepFlush, readBackOK bool
 	ops                                                       int
@@ -534,6 +589,39 @@ func (w *vc10World) step() {
 			return
 		}
 	}
+	vc10FaultGet.Store(-1)
+	vc10FaultAdd.Store(-1)
+	if g.faults && !w.readStale && r.Chance(1, 3) {
+		w.opSync() // flush first: the fault is meant for the read / the extension only
+		if w.k.Failed() {
+			return
+		}
+		w.faulted = true
+		defer func() { w.faulted = false; vc10FaultGet.Store(-1); vc10FaultAdd.Store(-1) }()
+		switch r.Intn(3) {
+		case 0:
+			w.k.Logf("arm: one of the next block fetches fails once")
+			if r.Bool() {
+				w.opSeek(int64(r.Range(0, int(w.size()))), io.SeekStart)
+				if w.k.Failed() {
+					return
+				}
+			}
+			vc10FaultGet.Store(int64(r.Range(0, 1)))
+			w.opRead(w.pickBuf()+1, r.Bool())
+		case 1:
+			w.k.Logf("arm: the next Add of a node with links fails once")
+			t := w.size() + int64(r.Range(1, 600))
+			vc10FaultAdd.Store(t)
+			w.opSeek(t, io.SeekStart)
+		default:
+			w.k.Logf("arm: the next Add of a node with links fails once")
+			t := w.size() + int64(r.Range(1, 600))
+			vc10FaultAdd.Store(t)
+			w.opTruncate(t)
+		}
+		return
+	}
 	for tries := 0; tries < 50; tries++ {
 		switch x := r.Intn(100); {
 		case x < 24: // Write
@@ -872,6 +960,11 @@ func (w *vc10World) opSeek(off int64, whence int) {
 	if o.hung || o.pan != nil {
 		return
 	}
+	if w.faulted && vc10Injected(o.err) {
+		// failed call: position as before (checked by what follows)
+		w.failedExtension(off)
+		return
+	}
 	// admissible successors
 	var next []vc10State
 	var exp []string
@@ -964,6 +1057,28 @@ func (w *vc10World) opRead(n int, full bool) {
 		return
 	}
 	w.readerAlive = true
+	if w.faulted && vc10Injected(o.err) {
+		// the read reported the fault: what it delivered must be a correct prefix; the offset moves by n
+		w.k.C.Count("ops_reporting_injected_fault", 1)
+		var next []vc10State
+		for _, s := range w.states {
+			rem := int64(len(s.data)) - s.off
+			if o.n >= 0 && o.n <= int64(n) && (o.n == 0 || o.n <= rem && bytes.Equal(buf[:o.n], s.data[s.off:s.off+o.n])) {
+				a := s
+				a.off += o.n
+				next = append(next, a)
+			}
+		}
+		if len(next) == 0 {
+			w.k.Fail("fault/read-prefix", "bytes delivered before a fetch fault are a correct prefix", "prefix of content[off:]", fmt.Sprintf("n=%d %s", o.n, w.hex(buf[:o.n])))
+			return
+		}
+		w.states = next
+		if o.n > 0 {
+			w.readStale = true
+		}
+		return
+	}
 	if o.err != nil && !errors.Is(o.err, io.EOF) && !errors.Is(o.err, io.ErrUnexpectedEOF) {
 		w.fail("read-error", "error", "nil or EOF", fmt.Sprintf("n=%d err=%v", o.n, o.err))
 		return
@@ -1051,6 +1166,10 @@ func (w *vc10World) opTruncate(n int64) {
 	}
 	o := w.do("Truncate", func(o *vc10Obs) { o.err = w.dm.Truncate(n) })
 	if o.hung || o.pan != nil {
+		return
+	}
+	if w.faulted && vc10Injected(o.err) {
+		w.failedExtension(n)
 		return
 	}
 	if changes && w.readerAlive {
@@ -1242,6 +1361,72 @@ func (w *vc10World) dedupe() {
 	}
 	w.states = out
 	w.k.C.Max("max_state_set", int64(len(out)))
+}
+
+// failedExtension handles an extending Seek/Truncate(t) that reported the
+// injected Add failure. The statement wants content and position as before. On
+// the unchanged tree the in-memory DAG is nevertheless already extended
+// (trickle.Append rewrites curNode in place before the root is stored): one
+// time in four this is checked strictly (class fault/extension-applied-despite-error,
+// a recorded finding); otherwise both sizes are admitted so that the position
+// and everything after the fault stay checked.
+func (w *vc10World) failedExtension(t int64) {
+	w.k.C.Count("ops_reporting_injected_fault", 1)
+	if w.r.Chance(1, 4) {
+		o := w.do("Size", func(o *vc10Obs) { n, err := w.dm.Size(); o.n, o.err = n, err })
+		if o.hung || o.pan != nil {
+			return
+		}
+		for _, s := range w.states {
+			if o.err == nil && o.n == int64(len(s.data)) {
+				return
+			}
+		}
+		w.k.Fail("fault/extension-applied-despite-error", "failed-call-leaves-size", fmt.Sprintf("Size()==%d after the failed extension to %d", w.size(), t), fmt.Sprintf("%d, %v", o.n, o.err))
+		return
+	}
+	// compensate the recorded finding: the in-memory root was extended but never
+	// stored; store it so that the operations after the fault can be checked
+	// (otherwise a later append links to a block that does not exist)
+	_ = w.dserv.Add(w.ctx, w.dm.curNode)
+	// the same finding in its other shape: the in-place rewritten root is left
+	// structurally broken (links to a block that was never stored, or links
+	// without size hints). Detected here on the modifier's current DAG so that it
+	// gets the finding's class and not the class of whatever operation trips over it.
+	var probeErr error
+	o := w.do("ProbeAfterFailedExtension", func(o *vc10Obs) {
+		dr, err := uio.NewDagReader(w.ctx, w.dm.curNode, w.dserv)
+		if err != nil {
+			probeErr = err
+			return
+		}
+		defer dr.Close()
+		if _, err := io.ReadAll(dr); err != nil {
+			probeErr = err
+			return
+		}
+		if _, err := dr.Seek(int64(dr.Size()/2)+1, io.SeekStart); err != nil {
+			probeErr = err
+		}
+	})
+	if o.hung || o.pan != nil {
+		return
+	}
+	if probeErr != nil {
+		w.k.Fail("fault/extension-applied-despite-error", "failed-call-leaves-dag-intact", "the modifier's DAG is readable after the failed extension", probeErr.Error())
+		return
+	}
+	var next []vc10State
+	for _, s := range w.states {
+		next = append(next, s)
+		if t > int64(len(s.data)) {
+			b := s.clone()
+			b.resize(t)
+			next = append(next, b)
+		}
+	}
+	w.states = next
+	w.dedupe()
 }
 
 // noteFlushDepth records (for the non-triviality rule) that the modifier's
